@@ -236,9 +236,9 @@ func vC13Render(r *vRand, ents []vC13Ent, common string) vC13Cfg {
 		sb.WriteString(r.pick([]string{",", " ", ", "}))
 	}
 	c.ids = sb.String()
-	if c.ids == "" {
-		// an empty `backends` value leaves the "backends" mode (Reload ignores such a file); keep the mode
-		c.ids = ","
+	if c.ids == "" && r.chance(1, 2) {
+		// nothing configured: either an empty value or one that only has separators
+		c.ids = r.pick([]string{",", " ", " , "})
 	}
 	return c
 }
@@ -681,7 +681,7 @@ func vC13Guard(fn func()) (out string) {
 	return "ok"
 }
 
-const vC13Watchdog = 3 * time.Second
+const vC13Watchdog = 8 * time.Second
 
 // vC13Timed runs fn in its own goroutine; false if it did not come back in time.
 func vC13Timed(fn func() string) (string, bool) {
@@ -790,7 +790,7 @@ func vC13Exec(t *testing.T, c *vCase) {
 			}
 			if in.cfg == nil || !in.static {
 				// a reload without a start (shrunk cases): an instance started with no backends
-				in.static, in.lastCfg = true, []string{"cs=%", "ids=,"}
+				in.static, in.lastCfg, in.fresh = true, []string{"cs=%", "ids=,"}, nil
 				in.cfg = in.freshInst()
 			}
 			in.lastCfg, in.fresh = f[1:], nil
